@@ -266,6 +266,76 @@ pub fn run(ctx: &mut Ctx) {
         }
     });
     ctx.mark_exhaustive("all 254 EC curve types other than explicit-prime / named-curve rejected");
+    // well-formed RFC 4492 section 5.4 explicit_char2 encodings (curve type 2: m, basis, k or k1 k2 k3, a, b, base,
+    // order, cofactor) of the SEC 2 binary curves and of near misses, in minimal and field-size-padded integer
+    // encodings: what a legacy stack that sends its Koblitz / random binary curve explicitly puts on the wire. The
+    // statement rejects every curve type other than explicit-prime and named-curve, whatever the body describes.
+    const CHAR2: [(u16, &[u16], u8); 14] = [
+        (163, &[3, 6, 7], 1), (163, &[3, 6, 7], 0), (193, &[15], 0), (193, &[15], 1), (233, &[74], 0), (233, &[74], 1), (239, &[158], 0),
+        (239, &[36], 0), (283, &[5, 7, 12], 0), (283, &[5, 7, 12], 1), (409, &[87], 0), (409, &[87], 1), (571, &[2, 5, 10], 0), (571, &[2, 5, 10], 1),
+    ];
+    ctx.floor("novalue.explicit-char2", 3000);
+    ctx.sweep("explicit-char2-sec2-curves", CHAR2.len() as u64 * 8, |ctx, idx| {
+        let (m, ks, a) = CHAR2[(idx / 8) as usize];
+        let variant = idx % 8;
+        let fs = (m as usize + 7) / 8;
+        let mut rng = Rng::new(idx ^ 0xC4A2);
+        let int = |v: u8, padded: bool| -> Vec<u8> {
+            if padded {
+                let mut x = vec![0u8; fs];
+                x[fs - 1] = v;
+                x
+            } else {
+                vec![v]
+            }
+        };
+        let kenc = |k: u16, wide: bool| -> Vec<u8> { if wide || k > 255 { k.to_be_bytes().to_vec() } else { vec![k as u8] } };
+        let pad_a = variant & 1 == 1;
+        let pad_b = variant & 2 == 2;
+        let wide_k = variant & 4 == 4;
+        // b = 1 (Koblitz), b random of field size (the r1 / r2 curves), b = 0 (degenerate)
+        for b in [int(1, pad_b), rng.bytes(fs), int(0, pad_b)] {
+            // base point: the agent-style short stand-in, a compressed and an uncompressed point of the field size
+            for base in [vec![4u8], { let mut x = vec![if rng.bool() { 2u8 } else { 3 }]; x.extend(rng.bytes(fs)); x }, { let mut x = vec![4u8]; x.extend(rng.bytes(2 * fs)); x }] {
+                for (order, cof) in [(vec![9u8], vec![4u8]), (rng.bytes(fs), vec![2u8]), (rng.bytes(fs), vec![if a == 1 { 2u8 } else { 4 }])] {
+                    for t in [2u8, 0, 4, 5, 0xfe, 0xff] {
+                        if t != 2 && (variant != 0 || base.len() != 1) {
+                            continue;
+                        }
+                        let input = enc(|w| {
+                            w.u8(t);
+                            w.u16(m);
+                            w.u8(if ks.len() == 1 { 1 } else { 2 });
+                            for k in ks.iter() {
+                                w.vec8("k", &kenc(*k, wide_k));
+                            }
+                            w.vec8("a", &int(a, pad_a));
+                            w.vec8("b", &b);
+                            w.vec8("base", &base);
+                            w.vec8("order", &order);
+                            w.vec8("cofactor", &cof);
+                        });
+                        let r = parse_ec_parameters(&input);
+                        no_value(ctx, "parse_ec_parameters", "explicit-char2", &input, &r);
+                        let r = ECParameters::parse(&input);
+                        no_value(ctx, "ECParameters::parse", "explicit-char2", &input, &r);
+                        // as server ECDH parameters (public point follows), and with a signature after them
+                        let mut input2 = input.clone();
+                        input2.push(1 + 2 * fs as u8);
+                        input2.push(4);
+                        input2.extend(rng.bytes(2 * fs));
+                        let r = parse_ecdh_params(&input2);
+                        no_value(ctx, "parse_ecdh_params", "explicit-char2", &input2, &r);
+                        let r = ServerECDHParams::parse(&input2);
+                        no_value(ctx, "ServerECDHParams::parse", "explicit-char2", &input2, &r);
+                        let sel = ECCurveType(t);
+                        let r = ECParametersContent::parse(&input[1..], sel);
+                        no_value(ctx, "ECParametersContent::parse", "explicit-char2", &input, &r);
+                    }
+                }
+            }
+        }
+    });
     let n = ctx.tier.pick(16000, 160000);
     ctx.family("ec", n, |ctx, case: &mut Case| {
         let r = &mut case.rng;
@@ -398,11 +468,10 @@ pub fn run(ctx: &mut Ctx) {
 
     // ------------------------------------------------ the structure at the start of a buffer of 2^31 / 2^32 bytes and a few bytes
     // around (lazily mapped zero pages; availability computed in i32 / u32): value and remainder as without it
-    ctx.floor("giant-trailing.cases", 20);
+    ctx.floor("giant-trailing.cases", 400);
     ctx.sweep("giant-trailing", 8, |ctx, idx| {
         let mut r = Rng::new(idx ^ 0x6147);
-        let total: usize = [(1usize << 31) - 1, 1 << 31, (1 << 31) + 4096, (1usize << 32) - 1, 1 << 32, (1usize << 32) + 7, (1usize << 32) + 70000, (1usize << 31) + 70_001][idx as usize];
-        let mut buf = match gen::lazy_zeroed(total) {
+        let mut buf = match gen::lazy_zeroed((1usize << 32) + 4096) {
             Some(b) => b,
             None => {
                 ctx.unjudged("giant-buffer-not-allocatable");
@@ -411,37 +480,59 @@ pub fn run(ctx: &mut Ctx) {
         };
         let dh = ADh { p: r.bytes(5), g: vec![2], ys: r.bytes(7) };
         let ec = gen::ecdh(&mut r);
-        let sg = ASig { alg: Some((4, 3)), data: r.bytes(9) };
-        let so = ASig { alg: None, data: r.bytes(9) };
-        let encs: [(&'static str, Vec<u8>); 5] = [("parse_dh_params", enc(|w| dh.enc(w))), ("parse_ecdh_params", enc(|w| ec.enc(w))), ("parse_ec_parameters", enc(|w| ec.params.enc(w))), ("parse_digitally_signed", enc(|w| sg.enc(w))), ("parse_digitally_signed_old", enc(|w| so.enc(w)))];
+        let sg = ASig { alg: Some((4, 3)), data: r.bytes(9 + idx as usize * 8) };
+        let so = ASig { alg: None, data: r.bytes(9 + idx as usize * 8) };
+        let encs: [(&'static str, Vec<u8>); 7] = [
+            ("parse_dh_params", enc(|w| dh.enc(w))),
+            ("parse_ecdh_params", enc(|w| ec.enc(w))),
+            ("parse_ec_parameters", enc(|w| ec.params.enc(w))),
+            ("parse_digitally_signed", enc(|w| sg.enc(w))),
+            ("parse_digitally_signed_old", enc(|w| so.enc(w))),
+            ("parse_content_and_signature(dh, true)", enc(|w| { dh.enc(w); sg.enc(w) })),
+            ("parse_content_and_signature(dh, false)", enc(|w| { dh.enc(w); so.enc(w) })),
+        ];
         for (k, (name, e)) in encs.iter().enumerate() {
+            if e.len() > 400 {
+                continue;
+            }
             buf[..e.len()].copy_from_slice(e);
-            let input = &buf[..];
             let fp = |i: &[u8]| -> Option<(Vec<u8>, usize)> {
                 match k {
                     0 => parse_dh_params(i).ok().map(|(rem, v)| (crate::visit::canon_of(&v), rem.len())),
                     1 => parse_ecdh_params(i).ok().map(|(rem, v)| (crate::visit::canon_of(&v), rem.len())),
                     2 => parse_ec_parameters(i).ok().map(|(rem, v)| (crate::visit::canon_of(&v), rem.len())),
                     3 => parse_digitally_signed(i).ok().map(|(rem, v)| (crate::visit::canon_of(&v), rem.len())),
-                    _ => parse_digitally_signed_old(i).ok().map(|(rem, v)| (crate::visit::canon_of(&v), rem.len())),
+                    4 => parse_digitally_signed_old(i).ok().map(|(rem, v)| (crate::visit::canon_of(&v), rem.len())),
+                    5 => parse_content_and_signature(i, parse_dh_params, true).ok().map(|(rem, v)| (crate::visit::canon_of(&v), rem.len())),
+                    _ => parse_content_and_signature(i, parse_dh_params, false).ok().map(|(rem, v)| (crate::visit::canon_of(&v), rem.len())),
                 }
             };
             let base = fp(e);
-            let got = ctx.guarded(name, e, || fp(input));
-            ctx.eval();
-            ctx.count("giant-trailing.cases");
-            ctx.shape(&("giant", *name, idx));
-            let want = base.map(|(c, _)| (c, total - e.len()));
-            if let Some(g) = got {
-                if want.is_none() {
-                    ctx.unjudged("giant-trailing: reference encoding alone not accepted");
-                } else if g != want {
-                    ctx.violation(
-                        format!("c13:{}:trailing-data-changes-the-result", name),
-                        json!({"parser": name, "encoding_len": e.len(), "buffer_len": total, "result": match &g { None => "rejected".to_string(), Some((_, rl)) => format!("accepted, remainder {}", rl) }, "input_hex": hex_short(e)}),
-                    );
+            if base.as_ref().map(|b| b.1) != Some(0) {
+                ctx.unjudged("giant-trailing: reference encoding alone not accepted");
+                continue;
+            }
+            // buffer sizes 2^31 + d and 2^32 + d for every d up to the structure's size + 8, and just below
+            'sizes: for basel in [1usize << 31, 1 << 32] {
+                for d in (0..e.len() + 8).map(|d| d as isize).chain([-1isize, -2]) {
+                    let total = (basel as isize + d) as usize;
+                    let input = &buf[..total];
+                    let got = ctx.guarded(name, e, || fp(input));
+                    ctx.eval();
+                    ctx.count("giant-trailing.cases");
+                    let want = base.clone().map(|(c, _)| (c, total - e.len()));
+                    if let Some(g) = got {
+                        if g != want {
+                            ctx.violation(
+                                format!("c13:{}:trailing-data-changes-the-result", name.split('(').next().unwrap_or(name)),
+                                json!({"parser": name, "encoding_len": e.len(), "buffer_len": total, "result": match &g { None => "rejected".to_string(), Some((_, rl)) => format!("accepted, remainder {}", rl) }, "input_hex": hex_short(e)}),
+                            );
+                            break 'sizes;
+                        }
+                    }
                 }
             }
+            ctx.shape(&("giant", *name, idx));
             for b in buf[..e.len()].iter_mut() {
                 *b = 0;
             }
